@@ -357,7 +357,7 @@ func TestC16(t *testing.T) {
 	rng := rand.New(rand.NewSource(vres.Seed()))
 	procs := []int{1, 2, 4, 16}
 	defer runtime.GOMAXPROCS(runtime.GOMAXPROCS(0))
-	nscen := vres.Pick(6, 40)
+	nscen := vres.Pick(12, 40)
 	for sc := 1; sc <= nscen; sc++ {
 		seed := rng.Int63()
 		gmp := procs[sc%len(procs)]
